@@ -326,3 +326,35 @@ Theorem C03_from_dict_duplicate_refused : forall w ti p x mid d e ch rest t r w2
   trees (snd (step w (OFromDict ti p (x :: mid ++ DI d e ch :: rest)))) = trees w.
 Proof. exact from_dict_duplicate_refused. Qed.
 Print Assumptions C03_from_dict_duplicate_refused.
+
+(* ====================================================================================== *)
+(* Audit, cross-cutting bridges.
+   (1) The invariant has several cousins across the development.  Here, the forms used by the mutation layer:
+       the inductive [SU], the path-free [sib_unique], and the row form "no two rows with equal (parent, data_id)"
+       (RowsSU), for every well-formed tree.  The Layer-A cousins are bridged in their own files:
+       [DictListProofs.sibuniq_f f <-> WF.SU f] is C14_sibuniq_is_C03_invariant, [SerIsoProofs.sib_unique] (convertible
+       with [WF.sib_unique]) and [ids_ok] from WF is SerAuditC05.WF_tree_side_conditions, [DiffProofs.sib_unique]
+       (uniqueness of == classes, a different predicate of the same name) is related in Properties/C11.v.
+   (2) the invariant over the guarded run the correspondence evaluates. *)
+From NT Require Import SurgeryFacts RowsSU CaseMut CaseMutFacts.
+
+Theorem C03_invariant_forms : forall t, WF t ->
+  SU (forest_of t) /\ sib_unique (forest_of t) /\ NoDup (map r_pd (rows 0 (forest_of t))) /\
+  (forall f, NoDup (ids f) -> ~ In 0 (ids f) -> (SU f <-> sib_unique f) /\ (SU f <-> NoDup (map r_pd (rows 0 f)))).
+Proof.
+  intros t H. assert (S := wf_su t H). split; [exact S|]. split; [now apply SU_sib_unique|]. split.
+  - apply (SU_rows (forest_of t)); [apply (wf_nodup t H)|apply (wf_pos t H)|exact S].
+  - intros f N Z. split; [apply SU_sib_unique|now apply SU_rows].
+Qed.
+Print Assumptions C03_invariant_forms.
+
+Theorem C03_reachable_chk : forall ops t, In t (trees (run_chk ops empty_world)) -> sib_unique (forest_of t).
+Proof.
+  intros ops t Ht. destruct (run_chk_reachable ops empty_world) as (ops' & _ & E). rewrite E in Ht. exact (C03_reachable ops' t Ht).
+Qed.
+Print Assumptions C03_reachable_chk.
+
+(* a refusal observed on the guarded step is the machine's refusal: EUnique never comes from the guard *)
+Theorem C03_step_chk_unique_is_step : forall w o w', step_chk w o = (Err EUnique, w') -> step w o = (Err EUnique, w').
+Proof. intros w o w' H. destruct (step_chk_err w o EUnique w' H) as [X|(_ & X & _)]; [exact X|discriminate]. Qed.
+Print Assumptions C03_step_chk_unique_is_step.
